@@ -281,6 +281,8 @@ class EFloatFormat(EncodableFormat):
                     ebits = bitmask(self.es)
                     mbits = bitmask(self.m)
                 case EFloatNanKind.NEG_ZERO:
+                    # NaN takes the place of -0 whatever sign the NaN carries
+                    sbit = 1
                     ebits = 0
                     mbits = 0
                 case _:
